@@ -1,6 +1,7 @@
 (* Props/C17.v — property C17: charges form an abelian group with parity;
    sector enumeration is exact.  Statements only; proofs live in Proofs/. *)
-From SV Require Import Base.Prelude Base.Sym Gen.Symmetries Model.SymInst Proofs.SymLaws.
+From SV Require Import Base.Prelude Base.Sym Gen.Symmetries Model.SymInst Model.Sectors
+  Proofs.SymLaws Proofs.SectorsProofs.
 
 (* The laws are stated for the definitions GENERATED from symmray/symmetries.py:
    all integers for U1/U1U1 (stronger than the property's box [-6,6]) and all
@@ -16,3 +17,110 @@ Print Assumptions C17_Z4_group_laws.
 Print Assumptions C17_U1_group_laws.
 Print Assumptions C17_Z2Z2_group_laws.
 Print Assumptions C17_U1U1_group_laws.
+
+(* ---- second half: the sector enumeration is exact -------------------------
+   For every symmetry G satisfying the group laws, every list of charge tables
+   with valid entries, one dual flag per table and a valid total charge q, the
+   list gen_valid_sectors G charges duals q contains exactly the tuples s that
+   pick one charge from each table and whose signed combination equals q
+   (none missing, none extra), and it contains none of them twice. *)
+Theorem C17_gen_valid_sectors_exact :
+  forall (G : Symmetry), GroupLaws G ->
+  forall (charges : list (list (C G))) (duals : list bool) (q : C G) (s : list (C G)),
+    Forall (fun t => Forall (fun c => valid G c = true) t) charges ->
+    length duals = length charges ->
+    valid G q = true ->
+    (In s (gen_valid_sectors G charges duals q)
+     <-> Forall2 (fun c cs => In c cs) s charges /\ is_valid_sector G duals q s = true).
+Proof. exact gen_valid_sectors_exact. Qed.
+
+(* no repetition: holds for every G, every duals and q, with no further premise *)
+Theorem C17_gen_valid_sectors_nodup :
+  forall (G : Symmetry) (charges : list (list (C G))) (duals : list bool) (q : C G),
+    Forall (@NoDup (C G)) charges -> NoDup (gen_valid_sectors G charges duals q).
+Proof. exact gen_valid_sectors_nodup. Qed.
+
+(* rank 0: the empty sector, present iff the total charge is the identity *)
+Theorem C17_gen_valid_sectors_rank0 :
+  forall (G : Symmetry), GroupLaws G ->
+  forall (duals : list bool) (q : C G) (s : list (C G)),
+    In s (gen_valid_sectors G [] duals q) <-> s = [] /\ q = ident G.
+Proof. exact gen_valid_sectors_rank0. Qed.
+
+(* exactness + no repetition pin the enumeration down up to order *)
+Theorem C17_gen_valid_sectors_complete_perm :
+  forall (G : Symmetry), GroupLaws G ->
+  forall (charges : list (list (C G))) (duals : list bool) (q : C G) (l : list (list (C G))),
+    Forall (fun t => Forall (fun c => valid G c = true) t) charges ->
+    Forall (@NoDup (C G)) charges ->
+    length duals = length charges ->
+    valid G q = true ->
+    NoDup l ->
+    (forall s, In s l <-> Forall2 (fun c cs => In c cs) s charges
+                          /\ is_valid_sector G duals q s = true) ->
+    Permutation.Permutation l (gen_valid_sectors G charges duals q).
+Proof. exact gen_valid_sectors_complete_perm. Qed.
+
+(* the five built-in symmetries (for U1 and U1U1 every label is valid, so the
+   validity premises disappear) *)
+Theorem C17_Z2_gen_valid_sectors_exact :
+  forall charges duals q s,
+    tables_valid Z2 charges -> length duals = length charges -> valid Z2 q = true ->
+    (In s (gen_valid_sectors Z2 charges duals q)
+     <-> Forall2 (fun c cs => In c cs) s charges /\ is_valid_sector Z2 duals q s = true).
+Proof. exact Z2_gen_valid_sectors_exact. Qed.
+Theorem C17_Z4_gen_valid_sectors_exact :
+  forall charges duals q s,
+    tables_valid Z4 charges -> length duals = length charges -> valid Z4 q = true ->
+    (In s (gen_valid_sectors Z4 charges duals q)
+     <-> Forall2 (fun c cs => In c cs) s charges /\ is_valid_sector Z4 duals q s = true).
+Proof. exact Z4_gen_valid_sectors_exact. Qed.
+Theorem C17_U1_gen_valid_sectors_exact :
+  forall charges duals q s,
+    length duals = length charges ->
+    (In s (gen_valid_sectors U1 charges duals q)
+     <-> Forall2 (fun c cs => In c cs) s charges /\ is_valid_sector U1 duals q s = true).
+Proof. exact U1_gen_valid_sectors_exact. Qed.
+Theorem C17_Z2Z2_gen_valid_sectors_exact :
+  forall charges duals q s,
+    tables_valid Z2Z2 charges -> length duals = length charges -> valid Z2Z2 q = true ->
+    (In s (gen_valid_sectors Z2Z2 charges duals q)
+     <-> Forall2 (fun c cs => In c cs) s charges /\ is_valid_sector Z2Z2 duals q s = true).
+Proof. exact Z2Z2_gen_valid_sectors_exact. Qed.
+Theorem C17_U1U1_gen_valid_sectors_exact :
+  forall charges duals q s,
+    length duals = length charges ->
+    (In s (gen_valid_sectors U1U1 charges duals q)
+     <-> Forall2 (fun c cs => In c cs) s charges /\ is_valid_sector U1U1 duals q s = true).
+Proof. exact U1U1_gen_valid_sectors_exact. Qed.
+
+Theorem C17_Z2_gen_valid_sectors_nodup : forall charges duals q,
+  Forall (@NoDup Z) charges -> NoDup (gen_valid_sectors Z2 charges duals q).
+Proof. exact (gen_valid_sectors_nodup Z2). Qed.
+Theorem C17_Z4_gen_valid_sectors_nodup : forall charges duals q,
+  Forall (@NoDup Z) charges -> NoDup (gen_valid_sectors Z4 charges duals q).
+Proof. exact (gen_valid_sectors_nodup Z4). Qed.
+Theorem C17_U1_gen_valid_sectors_nodup : forall charges duals q,
+  Forall (@NoDup Z) charges -> NoDup (gen_valid_sectors U1 charges duals q).
+Proof. exact (gen_valid_sectors_nodup U1). Qed.
+Theorem C17_Z2Z2_gen_valid_sectors_nodup : forall charges duals q,
+  Forall (@NoDup (Z * Z)) charges -> NoDup (gen_valid_sectors Z2Z2 charges duals q).
+Proof. exact (gen_valid_sectors_nodup Z2Z2). Qed.
+Theorem C17_U1U1_gen_valid_sectors_nodup : forall charges duals q,
+  Forall (@NoDup (Z * Z)) charges -> NoDup (gen_valid_sectors U1U1 charges duals q).
+Proof. exact (gen_valid_sectors_nodup U1U1). Qed.
+
+Print Assumptions C17_gen_valid_sectors_exact.
+Print Assumptions C17_gen_valid_sectors_nodup.
+Print Assumptions C17_gen_valid_sectors_rank0.
+Print Assumptions C17_gen_valid_sectors_complete_perm.
+Print Assumptions C17_Z2_gen_valid_sectors_exact.
+Print Assumptions C17_Z4_gen_valid_sectors_exact.
+Print Assumptions C17_U1_gen_valid_sectors_exact.
+Print Assumptions C17_Z2Z2_gen_valid_sectors_exact.
+Print Assumptions C17_U1U1_gen_valid_sectors_exact.
+Print Assumptions C17_Z2_gen_valid_sectors_nodup.
+Print Assumptions C17_Z4_gen_valid_sectors_nodup.
+Print Assumptions C17_U1_gen_valid_sectors_nodup.
+Print Assumptions C17_Z2Z2_gen_valid_sectors_nodup.
+Print Assumptions C17_U1U1_gen_valid_sectors_nodup.
